@@ -41,10 +41,10 @@ func buildCases(e *lib.Env) []*tcase {
 		shapes = append(shapes, styled(s)...)
 	}
 	fullW := e.Pick(0, 2)
-	cover := e.Pick(2, 20)
+	cover := e.Pick(2, 15)
 	frac := map[int]float64{1: 0.05, 2: 0.01, 3: 0.0015, 4: 0.0003}
 	if !e.Quick() {
-		frac = map[int]float64{3: 0.06, 4: 0.007}
+		frac = map[int]float64{3: 0.045, 4: 0.005}
 	}
 	rs := e.Rand("matrix-sample")
 	seen := map[string]int{}
@@ -112,7 +112,7 @@ func buildCases(e *lib.Env) []*tcase {
 			reps = append(reps, pair{sh, m})
 		}
 	}
-	k := e.Pick(25, 250)
+	k := e.Pick(25, 200)
 	for _, src := range sources {
 		for ri := range routes {
 			rt := &routes[ri]
